@@ -796,3 +796,7 @@ def replay(run, data) -> None:
     run_history(run, run.seed, case.get('engine', 'history') if case.get('engine') != 'return-probe' else 'history', int(case['id']), 40)
     run.case('pad', True)
     run.case('pad2', True)
+
+
+# (kept at the end of the file so that the text above stays the description the check was first built to)
+RULE += ' ' + 'Later additions: library ==, != (both directions) and hash() on every copy / freeze / thaw; text forms also through format() and f-strings and for magnitudes above 1e12.'
